@@ -44,13 +44,20 @@ func (w *World) chain(qs []Query, conns []string) {
 		desc += " " + strings.ToUpper(c) + " " + qs[i+1].String()
 	}
 	stats.Count("chains", 1)
-	var s *sod.Search
-	var objs []sod.Object
-	var err error
+	var s, s0 *sod.Search
+	var objs, objs0 []sod.Object
+	var err, err0 error
 	var ln int
 	viaOperation := w.rng.P(0.3)
 	if w.call("Search.And/Or", func() {
 		s = w.db.Search(&Rec{}, qs[0].Path, qs[0].Op, qs[0].Probe)
+		s0 = s
+		defer func() {
+			// the search the chain started from still denotes its own matches
+			if s0.Err() == nil {
+				objs0, err0 = s0.Collect()
+			}
+		}()
 		for i, c := range conns {
 			q := qs[i+1]
 			switch {
@@ -87,6 +94,14 @@ func (w *World) chain(qs []Query, conns []string) {
 	}
 	if ln != len(want) || !sameSet(want, got) {
 		w.fail("chain-mismatch", api, "-", fmt.Sprintf("%s\n Len=%d got %s\n want %s", desc, ln, shortList(sortedCopy(got)), shortList(setKeys(want))))
+		return
+	}
+	if want0, ok := w.m.Eval(qs[0]); ok && s0 != nil && s0.Err() == nil {
+		recs0, _ := objsToRecs(objs0)
+		got0 := uuidsOf(recs0)
+		if err0 != nil || len(got0) != len(want0) || !sameSet(want0, got0) {
+			w.fail("chain-parent-changed", api, "-", fmt.Sprintf("%s: the first search collected after the chain was derived from it: err=%v got %s want %s", desc, err0, shortList(sortedCopy(got0)), shortList(setKeys(want0))))
+		}
 	}
 }
 
